@@ -210,25 +210,23 @@ fn vec_pae<const N: usize>(pieces: [&[&[u8]]; N]) -> Vec<u8> {
     v
 }
 
-/// Vec<u8> receives exactly the concatenation the spec prescribes (small concrete lengths, symbolic
-/// contents): LE64(3) ‖ LE64(3)‖h‖""‖x ‖ LE64(2)‖m ‖ LE64(0)
+/// Vec<u8> (paseto-core's own WriteBytes impl) receives exactly the concatenation the spec prescribes
+/// (small concrete lengths, symbolic contents): LE64(2) ‖ LE64(3)‖h‖""‖x ‖ LE64(2)‖m
 #[kani::proof]
 #[kani::unwind(40)]
 fn pae_vec_bytes() {
     let h: [u8; 2] = kani::any();
     let x: [u8; 1] = kani::any();
     let m: [u8; 2] = kani::any();
-    let v = vec_pae([&[&h, b"", &x], &[&m], &[]]);
-    let want: [u8; 37] = [
-        3, 0, 0, 0, 0, 0, 0, 0, 3, 0, 0, 0, 0, 0, 0, 0, h[0], h[1], x[0], 2, 0, 0, 0, 0, 0, 0, 0, m[0], m[1], 0, 0, 0, 0, 0, 0, 0, 0,
-    ];
-    assert!(v.len() == 37);
+    let v = vec_pae([&[&h, b"", &x], &[&m]]);
+    let want: [u8; 29] = [2, 0, 0, 0, 0, 0, 0, 0, 3, 0, 0, 0, 0, 0, 0, 0, h[0], h[1], x[0], 2, 0, 0, 0, 0, 0, 0, 0, m[0], m[1]];
+    assert!(v.len() == 29);
     let mut i = 0;
-    while i < 37 {
+    while i < 29 {
         assert!(v[i] == want[i]);
         i += 1;
     }
-    kani::cover!(v.len() == 37);
+    kani::cover!(v.len() == 29);
     core::mem::forget(v);
 }
 
@@ -269,3 +267,4 @@ fn pae_boundary_shift() {
     }
     kani::cover!(bi == 2);
 }
+
